@@ -2,7 +2,14 @@
 import os, re, subprocess, time, threading, signal
 from common import log, NCPU, Undecided
 
-KANI_Z = ["-Z", "function-contracts", "-Z", "stubbing", "-Z", "unstable-options"]
+import shlex
+# --no-assertion-reach-checks: Kani's automatic reachability instrumentation adds one cover property per assertion, and CBMC's JSON
+# output carries a full trace for every satisfied cover: 3.2 GB of output and 12 GB of kani-driver memory for ONE harness of unit E5
+# (49 GB for a 40-harness run, which took the machine down), and 7x the solving time. Vacuity is guarded by each unit's own canary
+# and kani::cover! harnesses instead, which this flag does not affect.
+KANI_Z = ["-Z", "function-contracts", "-Z", "stubbing", "-Z", "unstable-options", "--no-assertion-reach-checks"]
+# extra cargo-kani arguments (experiments); default: CBMC verbosity lowered, see DESIGN Part II (driver memory)
+KANI_EXTRA = shlex.split(os.environ.get("VERIF_KANI_EXTRA", ""))
 FEATURE_ARGS = {
     "default": [],
     "nostd": ["--no-default-features", "--features", "hash"],
@@ -86,6 +93,7 @@ def build_cmd(harness_qnames, features="default", jobs=8, timeout_s=900, playbac
     cmd += ["--harness-timeout", "%ds" % timeout_s, "--exact"]
     for q in harness_qnames:
         cmd += ["--harness", q]
+    cmd += KANI_EXTRA      # may end in `--cbmc-args ...`, which must come last
     return cmd
 
 
